@@ -253,16 +253,15 @@ def run_gradflow(ctx: Ctx, name, dic, raw_ids, dens, num_infl, grad_infl):
     res = tlc.run(t, c, workers=4, cont=True, tag="c12", timeout=600)
     shutil.rmtree(d, ignore_errors=True)
     ctx.tlc(res, f"GradFlow {name}: {len(names)} nodes, {len(dn)} densities, {len(rn)} raw parameters")
-    for v in res.violations:
-        dens_name = v.trace[-1][1].get("d")
-        if v.name == "NoMissing":
-            k = next((k for k in dn if dn[k] == dens_name), dens_name)
+    names_of = {v.name for v in res.violations}
+    if "NoMissing" in names_of:
+        for k in dn:
             for p in sorted(num_infl.get(k, set()) - grad_infl.get(k, set())):
                 ctx.violation(f"C12:{name}:{k}:{p}:missing", f"{name}: {p} influences {k} numerically but never receives a gradient from it (GradFlow.NoMissing)",
                               {"config": name, "density": k, "parameter": p})
-        else:
-            ctx.note(f"MODEL-DRIFT bind:{v.name} {name}: density {dens_name}: measured influence is not along the extracted data-flow graph")
-            ctx.add("model_drift")
+    for other in sorted(names_of - {"NoMissing"}):
+        ctx.note(f"MODEL-DRIFT bind:{other} {name}: a measured influence is not along the extracted data-flow graph")
+        ctx.add("model_drift")
 
 
 def run(ctx: Ctx):
